@@ -12,7 +12,7 @@ import (
 var OddNodeKinds = []string{"noalloc", "zerocap", "zerocpu", "emptyprov", "shortprov", "longprov", "garbageprov", "nilmaps", "zerocreation", "nocpu", "tinycpu", "tinymem"}
 
 // OddPodKinds are the malformed pod shapes of the chaos profile (C20).
-var OddPodKinds = []string{"nocontainers", "norequests", "affinityEmpty", "nodeAffinityEmpty", "requiredEmpty", "termNoExpr", "exprNoValues",
+var OddPodKinds = []string{"nocontainers", "norequests", "affinityEmpty", "nodeAffinityEmpty", "requiredEmpty", "termNoExpr", "exprNoValues", "antiAffinityOnly", "podAffinityOnly", "preferredOnly",
 	"hugeReq", "bigCPU", "bigMem", "noConditions", "negReq", "initOnly", "overheadOnly", "unknownNode", "nilEverything"}
 
 // applyOddNode registers a node of group a.Group backed by a fresh ASG instance, then bends it.
@@ -93,6 +93,18 @@ func (w *World) applyOddPod(a Action) {
 		sel()
 		p.Spec.Affinity = &v1.Affinity{NodeAffinity: &v1.NodeAffinity{RequiredDuringSchedulingIgnoredDuringExecution: &v1.NodeSelector{NodeSelectorTerms: []v1.NodeSelectorTerm{
 			{MatchExpressions: []v1.NodeSelectorRequirement{{Key: o.LabelKey, Operator: v1.NodeSelectorOpIn}}}}}}}
+	case "antiAffinityOnly": // replicas spread over hosts: an affinity stanza without any node affinity in it
+		sel()
+		p.Spec.Affinity = &v1.Affinity{PodAntiAffinity: &v1.PodAntiAffinity{RequiredDuringSchedulingIgnoredDuringExecution: []v1.PodAffinityTerm{
+			{TopologyKey: "kubernetes.io/hostname", LabelSelector: &metav1.LabelSelector{MatchLabels: map[string]string{"app": "spread"}}}}}}
+	case "podAffinityOnly":
+		sel()
+		p.Spec.Affinity = &v1.Affinity{PodAffinity: &v1.PodAffinity{RequiredDuringSchedulingIgnoredDuringExecution: []v1.PodAffinityTerm{
+			{TopologyKey: "topology.kubernetes.io/zone", LabelSelector: &metav1.LabelSelector{MatchLabels: map[string]string{"app": "cache"}}}}}}
+	case "preferredOnly": // a node affinity that only states a preference
+		sel()
+		p.Spec.Affinity = &v1.Affinity{NodeAffinity: &v1.NodeAffinity{PreferredDuringSchedulingIgnoredDuringExecution: []v1.PreferredSchedulingTerm{
+			{Weight: 10, Preference: v1.NodeSelectorTerm{MatchExpressions: []v1.NodeSelectorRequirement{{Key: o.LabelKey, Operator: v1.NodeSelectorOpIn, Values: []string{o.LabelValue}}}}}}}}
 	case "hugeReq":
 		p.Spec.Containers[0].Resources.Requests = v1.ResourceList{v1.ResourceCPU: resource.MustParse("9E"), v1.ResourceMemory: resource.MustParse("8Ei")}
 	case "bigCPU": // absurd but representable: 9e15 cores = 9e18 millicores
